@@ -328,6 +328,10 @@ def hostile_inputs(ctx, n: int) -> list[bytes]:
     out += [b"", b"\x00", b"\x0a", b"\x01", b"\xff", b"\x0a\x0a", b"\x00\x00", b"\x05\x0a", b"\x0a\x02"]
     for b in base[:3]:
         out += [b[:1], b[:2], b[:3]]
+    # long runs of empty frames (keep-alive style) before the first frame with rows: time and stack depth must
+    # stay in proportion to the input
+    if base:
+        out += [b"\x00" * 40_000 + base[0], b"\x00" * 150_000 + base[-1]]
     for i in range(n):
         k = i % 8
         if k == 0:
@@ -432,7 +436,7 @@ def c17(ctx):
         if not x:
             continue
         ctx.report.evaluations += 1
-        if x["max_s"] > 5.0:
+        if x["max_s"] > 5.0 + len(b) / 20_000:  # promptly: a constant plus time in proportion to the input (50 us per byte, traced)
             out.append({"family": "PA", "mode": "hostile", "bytes": hx(b), "corresponds": True, "impl": x, "model": [],
                         "property_violation": {"what": f"parsing took {x['max_s']:.1f}s"}, "signature": {}})
         if any(v in ("err:MemoryError", "hang") for v in x["outcomes"].values()):
